@@ -2,7 +2,7 @@
 From Coq Require Import List ZArith Bool.
 From NX Require Import Handshake Handshake_proofs Pinned_comm Pinned_nxscope Pinned_thread.
 From Coq Require String.
-From NX Require PyLite Src_all Src_handshake_base Src_handshake_devinfo Src_handshake_proofs.
+From NX Require PyLite Src_all Src_handshake_base Src_handshake_devinfo Src_handshake_proofs Worker Src_worker_base.
 Import ListNotations.
 
 (** every finite sequence of public calls keeps the state-machine invariant *)
@@ -42,9 +42,33 @@ Theorem C09_description_src : forall n w p d q qs,
   264 <= n ->
   call_method program n (hcomm w p d q qs) "_devinfo_get" [] = emb_dev_top (devinfo_m w p d q qs).
 Proof. exact devinfo_get_spec_const. Qed.
+
+(** "no library thread is left alive" rests on what the common worker helper does with a handle:
+    on the source (thread.py interpreted with thread / event stubs, proofs/Src_worker_base.v)
+    thread_stop with NO handle changes nothing; with a handle whose worker is not alive (never
+    started, or finished on its own) it sets the flag, does not join and CLEARS the handle - so the
+    next thread_start starts a new worker; with an alive worker it stands at the join *)
+Theorem C09_worker_stop_src : forall n tgt ini fin h f s nm,
+  call_method program (3 + n) (Src_worker_base.tc tgt ini fin (Src_worker_base.handle nm h) (Src_worker_base.ev f s) nm) "thread_stop" [] =
+  match h with
+  | None => PyLite.Ok (PNone, Src_worker_base.tc tgt ini fin PNone (Src_worker_base.ev f s) nm)
+  | Some (p, _) => if Worker.alive p then Exc "BlockingIOError"
+                   else PyLite.Ok (PNone, Src_worker_base.tc tgt ini fin PNone (Src_worker_base.ev true s) nm)
+  end.
+Proof. exact Src_worker_base.thread_stop_spec. Qed.
+
+Theorem C09_worker_start_src : forall n tgt ini fin h f s nm,
+  call_method program (3 + n) (Src_worker_base.tc tgt ini fin (Src_worker_base.handle nm h) (Src_worker_base.ev f s) nm) "thread_start" [] =
+  PyLite.Ok (PNone, match h with
+                    | Some _ => Src_worker_base.tc tgt ini fin (Src_worker_base.handle nm h) (Src_worker_base.ev f s) nm
+                    | None => Src_worker_base.tc tgt ini fin (Src_worker_base.thr Src_worker_base.bound_loop nm Worker.WInit 0%Z) (Src_worker_base.ev false s) nm
+                    end).
+Proof. exact Src_worker_base.thread_start_spec. Qed.
 End OnSource.
 
 Print Assumptions C09_invariant.
 Print Assumptions C09_disconnected_inert.
 Print Assumptions C09_after_disconnect.
 Print Assumptions C09_description_src.
+Print Assumptions C09_worker_stop_src.
+Print Assumptions C09_worker_start_src.
